@@ -445,6 +445,142 @@ func vfC18Run(e *vfEnv, r *vfResult, idx int) { //nolint:cyclop,maintidx
 	_ = muxAddr
 }
 
+// vfC18ActiveTCP: local candidates the agent creates outside a gathering cycle.  When a remote ICE-TCP passive
+// candidate is added the agent makes active TCP host candidates of its own and publishes them; these too must belong
+// to an enabled candidate type and network type and respect DisableActiveTCP.  Real loopback interface (the active
+// connection binds a real local port).
+func vfC18ActiveTCP(e *vfEnv, r *vfResult, idx int) { //nolint:cyclop
+	rng := e.rng(idx, "activetcp")
+	cts := [][]CandidateType{{CandidateTypeHost}, {CandidateTypeServerReflexive}, {CandidateTypeRelay}, {CandidateTypeHost, CandidateTypeServerReflexive}, {CandidateTypeServerReflexive, CandidateTypeRelay}, nil}[rng.IntN(6)]
+	nts := [][]NetworkType{nil, {NetworkTypeUDP4}, {NetworkTypeUDP4, NetworkTypeTCP4}, {NetworkTypeTCP4}, {NetworkTypeUDP6, NetworkTypeTCP6}}[rng.IntN(5)]
+	disableActive := rng.IntN(4) == 0
+	stunTO := 20 * time.Millisecond
+	cfg := &AgentConfig{CandidateTypes: cts, NetworkTypes: nts, IncludeLoopback: true, InterfaceFilter: func(n string) bool { return n == "lo" },
+		MulticastDNSMode: MulticastDNSModeDisabled, DisableActiveTCP: disableActive, LoggerFactory: vfQuietLogger(), STUNGatherTimeout: &stunTO}
+	a, err := NewAgent(cfg)
+	if err != nil {
+		r.inconclusive(1)
+		r.note("activetcp: NewAgent: %v", err)
+
+		return
+	}
+	defer a.Close() //nolint:errcheck
+	var mu sync.Mutex
+	var published []Candidate
+	nils := 0
+	_ = a.OnCandidate(func(c Candidate) {
+		mu.Lock()
+		if c == nil {
+			nils++
+		} else {
+			published = append(published, c)
+		}
+		mu.Unlock()
+	})
+	gathered := rng.IntN(2) == 0
+	if gathered {
+		if err := a.GatherCandidates(); err == nil {
+			for dl := time.Now().Add(10 * time.Second); time.Now().Before(dl); time.Sleep(100 * time.Microsecond) {
+				mu.Lock()
+				n := nils
+				mu.Unlock()
+				if n > 0 {
+					break
+				}
+			}
+		}
+	}
+	ln, err := net.Listen("tcp4", "127.0.0.1:0")
+	if err != nil {
+		r.inconclusive(1)
+
+		return
+	}
+	defer ln.Close() //nolint:errcheck
+	go func() {
+		for {
+			c, err := ln.Accept()
+			if err != nil {
+				return
+			}
+			_ = c.Close()
+		}
+	}()
+	port := ln.Addr().(*net.TCPAddr).Port //nolint:forcetypeassert
+	rc, err := NewCandidateHost(&CandidateHostConfig{Network: "tcp", Address: "127.0.0.1", Port: port, Component: 1, TCPType: TCPTypePassive})
+	if err != nil {
+		r.inconclusive(1)
+
+		return
+	}
+	_ = a.AddRemoteCandidate(rc)
+	for dl := time.Now().Add(5 * time.Second); time.Now().Before(dl); time.Sleep(50 * time.Microsecond) {
+		if !strings.Contains(vfStacks(), "(*Agent).AddRemoteCandidate.func") {
+			break
+		}
+	}
+	_ = a.loop.Run(a.loop, func(context.Context) {})
+	if err := vfAwaitNotifiers(a); err != nil {
+		r.inconclusive(1)
+
+		return
+	}
+	r.eval(1)
+	typeOK := func(t CandidateType) bool {
+		if len(cts) == 0 {
+			return true // default: all types
+		}
+		for _, x := range cts {
+			if x == t {
+				return true
+			}
+		}
+
+		return false
+	}
+	ntOK := func(nt NetworkType) bool {
+		if len(nts) == 0 {
+			return true
+		}
+		for _, x := range nts {
+			if x == nt {
+				return true
+			}
+		}
+
+		return false
+	}
+	listed, _ := a.GetLocalCandidates()
+	mu.Lock()
+	all := append(append([]Candidate{}, published...), listed...)
+	mu.Unlock()
+	wit := map[string]any{"idx": idx, "candidate_types": fmt.Sprint(cts), "network_types": fmt.Sprint(nts), "disable_active_tcp": disableActive, "gathered_first": gathered, "remote": rc.String()}
+	active := 0
+	for _, c := range all {
+		if c.TCPType() == TCPTypeActive {
+			active++
+		}
+		switch {
+		case !typeOK(c.Type()):
+			r.violation("active-tcp-candidate-of-disabled-type", fmt.Sprintf("candidate types %v: after a remote TCP passive candidate was added the agent published / lists %s (type %s)", cts, c, c.Type()), wit)
+
+			return
+		case !ntOK(c.NetworkType()):
+			r.violation("active-tcp-candidate-of-disabled-network-type", fmt.Sprintf("network types %v: the agent published / lists %s", nts, c), wit)
+
+			return
+		case disableActive && c.TCPType() == TCPTypeActive:
+			r.violation("active-tcp-candidate-although-disabled", fmt.Sprintf("DisableActiveTCP is set but the agent published / lists %s", c), wit)
+
+			return
+		}
+	}
+	if active > 0 {
+		r.count("c18_runs_with_active_tcp_candidates", 1)
+	}
+	r.distinct(fmt.Sprintf("activetcp/types=%v/nts=%v/disabled=%v/gathered=%v/active=%v", cts, nts, disableActive, gathered, active > 0))
+}
+
 func TestVerifC18(t *testing.T) {
 	vfRun(t, "C18", func(e *vfEnv, r *vfResult) {
 		n := e.n(4000, 200000)
@@ -453,6 +589,9 @@ func TestVerifC18(t *testing.T) {
 				continue
 			}
 			vfC18Run(e, r, i)
+		}
+		for i := 0; i < e.n(150, 6000); i++ {
+			vfC18ActiveTCP(e, r, i)
 		}
 		// Restart racing a running cycle (old results must not be mixed into the new generation)
 		m := e.n(300, 10000)
